@@ -676,7 +676,7 @@ impl Puppet {
 
     fn inject_invalid(&mut self) {
         let r = self.round_upper.max(self.node_round_estimate());
-        let kinds: Vec<u32> = if self.cfg.only_mutations.is_empty() { (0..31).collect() } else { self.cfg.only_mutations.clone() };
+        let kinds: Vec<u32> = if self.cfg.only_mutations.is_empty() { (0..33).collect() } else { self.cfg.only_mutations.clone() };
         let kind = kinds[self.r.below(kinds.len())];
         let leader = self.members.leader_index(r);
         let ps = self.puppets();
@@ -949,6 +949,24 @@ impl Puppet {
                     let b = self.mk_block(author, r, QC::genesis(), Some(tc), pl);
                     what = "block whose TC has a flipped signature bit".into();
                     bad_block = Some(b);
+                }
+            }
+            31 | 32 => {
+                // Degenerate certificates: a "QC" of round 0 that names a real block (not the
+                // genesis QC, no votes), or a QC with the all-zero hash and a non-zero round.
+                let signers = self.quorum_of_puppets();
+                let highs: Vec<Round> = signers.iter().map(|_| 0).collect();
+                let tc = if r > 1 { Some(self.mk_tc(r - 1, &signers, &highs)) } else { None };
+                let q = if kind == 31 {
+                    what = "block whose QC has round 0 but names a real block and carries no votes".into();
+                    QC { hash: tip_d.clone(), round: 0, votes: vec![] }
+                } else {
+                    what = "block whose QC has the all-zero hash, a non-zero round and no votes".into();
+                    QC { hash: Digest::default(), round: r.saturating_sub(1).max(1), votes: vec![] }
+                };
+                if tip_d != Digest::default() || kind == 32 {
+                    let pl = vec![];
+                    bad_block = Some(self.mk_block(author, r, q, tc, pl));
                 }
             }
             28 | 29 | 30 => {
